@@ -122,6 +122,13 @@ def _report(ses, rec, names, proto, fkind, akind, mode, what, public, want='ok')
                 steps += [{'op': 'mutate', 'in': '$T%d' % fi, 'out': 'M%d_%d' % (fi, ci), 'ops': [{'footer_seg': c}]},
                           {'op': 'parse_core', 'proto': proto, 'token': '$M%d_%d' % (fi, ci), 'key': '$k_pk', 'footer': ftxt, 'assertion': None if akind == 'none' else _txt(m.get('assertion')), 'out': 'R%d_%d' % (fi, ci)}]
                 alts.append([{'var': 'R%d_%d' % (fi, ci), 'is': 'ok'}])
+        # expected footer absent / empty: the authentic token has three segments; a fourth one of any content must be refused
+        mm = dict(m); steps.append(build_step(proto, mm, 'none', akind, out='TN'))
+        for ci, c in enumerate(['', 'AA', 'Zg', 'eyJraWQiOiJ4In0', '=']):
+            for ei, expf in enumerate([None, '']):
+                steps += [{'op': 'mutate', 'in': '$TN', 'out': 'MN%d' % ci, 'ops': [{'footer_seg': c}]},
+                          {'op': 'parse_core', 'proto': proto, 'token': '$MN%d' % ci, 'key': '$k_pk', 'footer': expf, 'assertion': None if akind == 'none' else _txt(m.get('assertion')), 'out': 'RN%d_%d' % (ci, ei)}]
+                if c != '': alts.append([{'var': 'RN%d_%d' % (ci, ei), 'is': 'ok'}])
         ses.violation('%s %s footer=%s assertion=%s: %s (a footer segment other than b64url(F) is accepted with expected footer F)' % (proto, mode, fkind, akind, what), m, {'steps': steps, 'violated_if': alts})
         return
     D_ = {'var': 'DIFF', 'is': 'ok'}
@@ -154,10 +161,11 @@ def job_shape(ses, proto):
             inp_m = {'key': '00' * 32, 'nonce': '11' * 32, 'message': '7b7d'.encode().hex() if False else '6d', 'footer': '66', 'assertion': ''}
             alts = []
             steps = key_steps(proto, inp_m)
-            for j, (fk, suffixes) in enumerate((('none', ['..', '..x', '.x.y', '...', '.']), ('some', ['.', '.x', '..', '.x.y']))):
+            WS = [' ', '\n', '\t', '\r\n', '\u00a0', '\u3000']
+            for j, (fk, suffixes) in enumerate((('none', ['..', '..x', '.x.y', '...', '.'] + WS + ['<' + x for x in WS]), ('some', ['.', '.x', '..', '.x.y'] + WS + ['<' + x for x in WS]))):
                 steps.append(build_step(proto, inp_m, fk, 'none', out='T%d' % j))
                 for i, sfx in enumerate(suffixes):
-                    steps += [{'op': 'mutate', 'in': '$T%d' % j, 'out': 'M%d_%d' % (j, i), 'ops': [{'append_text': sfx}]},
+                    steps += [{'op': 'mutate', 'in': '$T%d' % j, 'out': 'M%d_%d' % (j, i), 'ops': [{'prepend_text': sfx[1:]} if sfx.startswith('<') else {'append_text': sfx}]},
                               {'op': 'parse_core', 'proto': proto, 'token': '$M%d_%d' % (j, i), 'key': '$k_pk', 'footer': None if fk == 'none' else _txt(inp_m['footer']), 'assertion': None, 'out': 'R%d_%d' % (j, i)}]
                     if not (fk == 'none' and sfx == '.'): alts.append([{'var': 'R%d_%d' % (j, i), 'is': 'ok'}])
             ses.violation('%s: a token text that is not header.payload[.footer] is accepted (e.g. extra segments), model token %r' % (proto, (m.get('token') or '')[:80]), m,
@@ -176,6 +184,8 @@ def run(ses):
         jobs.append((job_shape, (p,)))
         if ses.tier == 'thorough': jobs += [(job_splice, (p, 'S3')), (job_splice, (p, 'S4'))]
     jobs += upper.tamper_jobs(ses.tier)
+    from .. import kani
+    jobs.append((kani.job_footer_compare, ()))        # the expected-footer comparison on the compiled code: an edited footer segment is never taken for the right one
     run_jobs(ses, jobs)
     ses.trusted_base = TRUSTED
     ses.assumptions = ['the attacker knows the authentic token and may present ANY byte string as decoded payload and any dot-free text as footer segment; expected footer/assertion/key are those of the authentic token',
@@ -184,6 +194,7 @@ def run(ses):
 
 confirm = c01.confirm
 replay = c01.replay
+BASELINE = ['footer_compare']
 
 
 def job_splice(ses, proto, mode):
